@@ -67,6 +67,31 @@ Definition reaches (st : stack) (toks : list token) (st' : stack) (toks' : list 
 Lemma reaches_trans a ta b tb c tc n m : reaches a ta b tb n -> reaches b tb c tc m -> reaches a ta c tc (n + m).
 Proof. intros H1 H2 f. replace (n + m + f)%nat with (n + (m + f))%nat by lia. rewrite H1. apply H2. Qed.
 
+
+(* ---- the states of the automaton that matter, named by how they are reached (not by their numbers: a renumbering of PLY's
+   tables -- e.g. grammar rules defined in another order -- leaves every statement and proof below unchanged) ---- *)
+Definition sh (s : nat) (t : term) : nat := match action s t with Some (Shift s') => s' | _ => 0%nat end.
+Definition gt (s : nat) (n : nonterm) : nat := match goto s n with Some g => g | None => 0%nat end.
+Definition S_res : nat := sh 0 T_ID.              (* after a result name *)
+Definition S_eq : nat := sh S_res T_EQUAL.
+Definition S_name : nat := sh S_eq T_ID.          (* after the command name *)
+Definition S_lp : nat := sh S_name T_LPAREN.      (* after the opening parenthesis *)
+Definition S_an : nat := sh S_lp T_ID.            (* after an argument name *)
+Definition S_val : nat := sh S_an T_EQUAL.        (* where the value of an argument starts *)
+Definition S_lb : nat := sh S_val T_LBRACK.       (* after an opening bracket *)
+Definition S_el : nat := gt S_lb N_element.       (* after a list element *)
+Definition S_ec : nat := sh S_el T_COMMA.         (* after `element ,` *)
+Definition S_arg : nat := gt S_lp N_argument.     (* after an argument *)
+Definition S_ac : nat := sh S_arg T_COMMA.        (* after `argument ,` *)
+Definition S_cmd : nat := gt 0 N_command.         (* after a command *)
+Definition S_tp : nat := gt S_lb N_tuple_pair.    (* after a key: value pair *)
+Definition S_pc : nat := sh S_tp T_COMMA.         (* after `pair ,` *)
+Definition ge (s : nat) : nat := gt s N_expression.
+Definition gl (s : nat) : nat := gt s N_elements.
+Definition gp (s : nat) : nat := gt s N_tuple_pairs.
+Definition ga (s : nat) : nat := gt s N_argument_list.
+Definition gc (s : nat) : nat := gt s N_commands.
+
 Section LR.
 Variable L : nat -> N.
 Variable P : nat -> nat.
@@ -75,13 +100,12 @@ Notation deco := (deco L P).
 Notation mk := (mk L P).
 
 Ltac lr := cbn [run step defaulted hd_error tl LrComplete.mk fst snd t_kind term_of action reduce production firstn skipn length map rev app
-                Nat.ltb Nat.leb goto Nat.add LrComplete.deco tk_value tk_join ge Nat.eqb].
+                Nat.ltb Nat.leb goto Nat.add LrComplete.deco tk_value tk_join ge gl gp ga gc sh gt S_res S_eq S_name S_lp S_an S_val S_lb S_el S_ec S_arg S_ac S_cmd S_tp S_pc Nat.eqb].
 Ltac ev := cbn [eval bind first_line leaf_text LrComplete.mk t_kind t_lexeme t_line fst snd].
 
 (* a value starts in state 17 (after `name =`), 29 (after `[`) or 50 (after `element ,`); what may follow it there *)
 Definition vctx (s : nat) (la : token) : Prop :=
-  (s = 17%nat /\ (t_kind la = KCOMMA \/ t_kind la = KRPAREN)) \/ ((s = 29%nat \/ s = 50%nat) /\ (t_kind la = KCOMMA \/ t_kind la = KRBRACK)).
-Definition ge (s : nat) : nat := if Nat.eqb s 17 then 20%nat else 43%nat.
+  (s = S_val /\ (t_kind la = KCOMMA \/ t_kind la = KRPAREN)) \/ ((s = S_lb \/ s = S_ec) /\ (t_kind la = KCOMMA \/ t_kind la = KRBRACK)).
 Definition value_spec (isres : bool) (v : sval) : Prop := forall s i T0 st la rest, vctx s la ->
   exists n T e, (n + 4 <= 10 * length (tk_value isres v))%nat /\
     reaches ((s, T0) :: st) (deco i (tk_value isres v) ++ la :: rest) ((ge s, T) :: (s, T0) :: st) (la :: rest) n /\
@@ -107,9 +131,8 @@ Lemma other_ok isres t : value_spec isres (SVOther t).
 Proof. leaf 4%nat idtac. Qed.
 
 (* elements of a non-empty list, started in state 29 (after `[`) or 50 (after `element ,`), followed by `]` *)
-Definition gl (s : nat) : nat := if Nat.eqb s 29 then 39%nat else 54%nat.
 Lemma elems_ok isres : forall l, l <> [] -> Forall (value_spec isres) l ->
-  forall s i T0 st rb rest, s = 29%nat \/ s = 50%nat -> t_kind rb = KRBRACK ->
+  forall s i T0 st rb rest, s = S_lb \/ s = S_ec -> t_kind rb = KRBRACK ->
   exists n T es, (n <= 10 * length (tk_join (map (tk_value isres) l)))%nat /\
     reaches ((s, T0) :: st) (deco i (tk_join (map (tk_value isres) l)) ++ rb :: rest) ((gl s, T) :: (s, T0) :: st) (rb :: rest) n /\
     eval fs T = SOk (SElems es) /\ map erase_e es = map (fun x => PE (pv x) 0%N) l.
@@ -126,8 +149,8 @@ Proof. induction l as [|v l IH]; [congruence|]. intros _ HF s i T0 st rb rest Hs
     set (c := mk (length (tk_value isres v) + i) comma).
     destruct (Hv s i T0 st c (deco (S (length (tk_value isres v) + i)) (tk_join (map (tk_value isres) (v2 :: l'))) ++ rb :: rest))
       as (n & T & e & Hn & Hr & He & Hp); [right; split; [exact Hs | left; reflexivity]|].
-    destruct (IH ltac:(discriminate) HF' 50%nat (S (length (tk_value isres v) + i)) (Leaf c)
-                 ((41%nat, Br F_p_element_expression [T]) :: (s, T0) :: st) rb rest (or_intror eq_refl) Hrb)
+    destruct (IH ltac:(discriminate) HF' S_ec (S (length (tk_value isres v) + i)) (Leaf c)
+                 ((S_el, Br F_p_element_expression [T]) :: (s, T0) :: st) rb rest (or_intror eq_refl) Hrb)
       as (n2 & T2 & es & Hn2 & Hr2 & He2 & Hp2).
     exists (n + 2 + n2 + 1)%nat, (Br F_p_elements [Br F_p_element_expression [T]; Leaf c; T2]), (e :: es). split; [|split; [|split]].
     + rewrite app_length. cbn [length]. lia.
@@ -148,7 +171,7 @@ Proof. intros HF s i T0 st la rest H. destruct l as [|v l'].
     change (tk_value isres (SVList l)) with (lbt :: tj ++ [rbt]).
     cbn [LrComplete.deco]. rewrite deco_app. cbn [LrComplete.deco app]. rewrite <- app_assoc. cbn [app].
     set (rb := mk (length tj + S i) rbt). set (lb := mk i lbt).
-    destruct (elems_ok isres l ltac:(discriminate) HF 29%nat (S i) (Leaf lb) ((s, T0) :: st) rb (la :: rest) (or_introl eq_refl) eq_refl)
+    destruct (elems_ok isres l ltac:(discriminate) HF S_lb (S i) (Leaf lb) ((s, T0) :: st) rb (la :: rest) (or_introl eq_refl) eq_refl)
       as (n & T & es & Hn & Hr & He & Hp).
     exists (1 + n + 3)%nat, (Br F_p_expression [Br F_p_list [Leaf lb; T; Leaf rb]]), (PE (PList es) (L i)). split; [|split; [|split]].
     + cbn [length]. rewrite app_length. cbn [length]. fold tj in Hn. lia.
@@ -174,10 +197,9 @@ Fixpoint dexp (kv : list (text * text)) : list (text * pexpr) :=
   end.
 Lemma er_dict_set d k e : map er (dict_set d k e) = dict_set (map er d) k (erase_e e).
 Proof. induction d as [|[k' e'] d IH]; [reflexivity|]. cbn [dict_set map er fst snd]. destruct (list_eq_dec N.eq_dec k k'); cbn [map er fst snd]; [reflexivity | rewrite IH; reflexivity]. Qed.
-Definition gp (s : nat) : nat := if Nat.eqb s 29 then 42%nat else 55%nat.
 Definition colon : kl := (KCOLON, [58%N]).
 Lemma pairs_ok : forall kv, kv <> [] ->
-  forall s i T0 st rb rest, s = 29%nat \/ s = 51%nat -> t_kind rb = KRBRACK ->
+  forall s i T0 st rb rest, s = S_lb \/ s = S_pc -> t_kind rb = KRBRACK ->
   exists n T d, (n <= 10 * length (tk_join (map tk_pair kv)))%nat /\
     reaches ((s, T0) :: st) (deco i (tk_join (map tk_pair kv)) ++ rb :: rest) ((gp s, T) :: (s, T0) :: st) (rb :: rest) n /\
     eval fs T = SOk (SDict d) /\ map er d = dexp kv.
@@ -193,7 +215,7 @@ Proof. induction kv as [|p kv IH]; [congruence|]. intros _ s i T0 st rb rest Hs 
     set (c := mk (3 + i) comma).
     set (k1 := mk i (KSTRING, quote (fst p))). set (c1 := mk (S i) (KCOLON, [58%N])). set (v1 := mk (S (S i)) (KSTRING, quote (snd p))).
     set (Tp := Br F_p_tuple_pair [Leaf k1; Leaf c1; Br F_p_tuple_value [Leaf v1]]).
-    destruct (IH ltac:(discriminate) 51%nat (S (3 + i)) (Leaf c) ((44%nat, Tp) :: (s, T0) :: st) rb rest (or_intror eq_refl) Hrb)
+    destruct (IH ltac:(discriminate) S_pc (S (3 + i)) (Leaf c) ((S_tp, Tp) :: (s, T0) :: st) rb rest (or_intror eq_refl) Hrb)
       as (n2 & T2 & d & Hn2 & Hr2 & He2 & Hp2).
     exists (6 + n2 + 1)%nat, (Br F_p_tuple_pairs [Tp; Leaf c; T2]), (dict_set d (fst p) (PE (PStr (snd p)) (L i))). split; [|split; [|split]].
     + cbn [app length]. lia.
@@ -210,10 +232,10 @@ Definition aexp (a : sarg) : pval :=
 Definition actx (la : token) : Prop := t_kind la = KCOMMA \/ t_kind la = KRPAREN.
 Lemma argval_ok (a : sarg) : forall i T0 st la rest, actx la ->
   exists n T e, (n + 4 <= 10 * length (tl (tl (tk_arg (nil, a)))))%nat /\
-    reaches ((17%nat, T0) :: st) (deco i (tl (tl (tk_arg (nil, a)))) ++ la :: rest) ((20%nat, T) :: (17%nat, T0) :: st) (la :: rest) n /\
+    reaches ((S_val, T0) :: st) (deco i (tl (tl (tk_arg (nil, a)))) ++ la :: rest) (((ge S_val), T) :: (S_val, T0) :: st) (la :: rest) n /\
     eval fs T = SOk (SExpr e) /\ erase_e e = PE (aexp a) 0%N.
 Proof. intros i T0 st la rest H. destruct a as [isres v|kv]; cbn [tk_arg tl snd].
-  - destruct (value_ok isres v 17%nat i T0 st la rest) as (n & T & e & A & B & C & D); [left; split; [reflexivity | exact H]|].
+  - destruct (value_ok isres v S_val i T0 st la rest) as (n & T & e & A & B & C & D); [left; split; [reflexivity | exact H]|].
     exists n, T, e. auto.
   - destruct kv as [|p kv'].
     + exists 4%nat. destruct H as [H|H];
@@ -221,7 +243,7 @@ Proof. intros i T0 st la rest H. destruct a as [isres v|kv]; cbn [tk_arg tl snd]
     + set (kv := p :: kv') in *. set (tj := tk_join (map tk_pair kv)).
       cbn [LrComplete.deco]. rewrite deco_app. cbn [LrComplete.deco app]. rewrite <- app_assoc. cbn [app].
       set (rb := mk (length tj + S i) (KRBRACK, [93%N])). set (lb := mk i (KLBRACK, [91%N])).
-      destruct (pairs_ok kv ltac:(discriminate) 29%nat (S i) (Leaf lb) ((17%nat, T0) :: st) rb (la :: rest) (or_introl eq_refl) eq_refl)
+      destruct (pairs_ok kv ltac:(discriminate) S_lb (S i) (Leaf lb) ((S_val, T0) :: st) rb (la :: rest) (or_introl eq_refl) eq_refl)
         as (n & T & d & Hn & Hr & He & Hp).
       exists (1 + n + 4)%nat, (Br F_p_expression [Br F_p_list [Leaf lb; Br F_p_elements_tuple_pairs [T]; Leaf rb]]), (PE (PDict d) (L i)).
       split; [|split; [|split]].
@@ -238,13 +260,13 @@ Definition arg_matches (x : text * sarg) (a : parg) : Prop := pa_name a = fst x 
 Lemma tk_arg_split x : tk_arg x = (KID, fst x) :: eqt :: tl (tl (tk_arg (nil, snd x))).
 Proof. destruct x as [nm a]. reflexivity. Qed.
 (* one argument, started in state 8 (after the opening parenthesis) or 16 (after `argument ,`) *)
-Lemma arg_ok x : forall s i T0 st la rest, s = 8%nat \/ s = 16%nat -> actx la ->
+Lemma arg_ok x : forall s i T0 st la rest, s = S_lp \/ s = S_ac -> actx la ->
   exists n T a, (n + 4 <= 10 * length (tk_arg x))%nat /\
-    reaches ((s, T0) :: st) (deco i (tk_arg x) ++ la :: rest) ((12%nat, T) :: (s, T0) :: st) (la :: rest) n /\
+    reaches ((s, T0) :: st) (deco i (tk_arg x) ++ la :: rest) ((S_arg, T) :: (s, T0) :: st) (la :: rest) n /\
     eval fs T = SOk (SArg a) /\ arg_matches x a.
 Proof. intros s i T0 st la rest Hs H. rewrite tk_arg_split. cbn [LrComplete.deco app].
   set (nm := mk i (KID, fst x)). set (eqk := mk (S i) eqt).
-  destruct (argval_ok (snd x) (S (S i)) (Leaf eqk) ((13%nat, Leaf nm) :: (s, T0) :: st) la rest H) as (n & T & e & Hn & Hr & He & Hp).
+  destruct (argval_ok (snd x) (S (S i)) (Leaf eqk) ((S_an, Leaf nm) :: (s, T0) :: st) la rest H) as (n & T & e & Hn & Hr & He & Hp).
   exists (2 + n + 1)%nat, (Br F_p_argument [Leaf nm; Leaf eqk; T]), {| pa_name := fst x; pa_value := e; pa_line := L i |}.
   split; [|split; [|split]].
   - cbn [length]. lia.
@@ -255,8 +277,7 @@ Proof. intros s i T0 st la rest Hs H. rewrite tk_arg_split. cbn [LrComplete.deco
   - split; [reflexivity | exact Hp].
 Qed.
 (* a non-empty argument list, followed by the closing parenthesis *)
-Definition ga (s : nat) : nat := if Nat.eqb s 8 then 10%nat else 18%nat.
-Lemma args_ok : forall l, l <> [] -> forall s i T0 st rp rest, s = 8%nat \/ s = 16%nat -> t_kind rp = KRPAREN ->
+Lemma args_ok : forall l, l <> [] -> forall s i T0 st rp rest, s = S_lp \/ s = S_ac -> t_kind rp = KRPAREN ->
   exists n T al, (n <= 10 * length (tk_join (map tk_arg l)))%nat /\
     reaches ((s, T0) :: st) (deco i (tk_join (map tk_arg l)) ++ rp :: rest) ((ga s, T) :: (s, T0) :: st) (rp :: rest) n /\
     eval fs T = SOk (SArgs al) /\ Forall2 arg_matches l al.
@@ -272,7 +293,7 @@ Proof. induction l as [|x l IH]; [congruence|]. intros _ s i T0 st rp rest Hs Hr
     rewrite deco_app. cbn [LrComplete.deco]. rewrite <- app_assoc. cbn [app].
     set (c := mk (length (tk_arg x) + i) comma).
     destruct (arg_ok x s i T0 st c (deco (S (length (tk_arg x) + i)) tj ++ rp :: rest) Hs (or_introl eq_refl)) as (n & T & a & Hn & Hr & He & Hm).
-    destruct (IH ltac:(discriminate) 16%nat (S (length (tk_arg x) + i)) (Leaf c) ((12%nat, T) :: (s, T0) :: st) rp rest (or_intror eq_refl) Hrp)
+    destruct (IH ltac:(discriminate) S_ac (S (length (tk_arg x) + i)) (Leaf c) ((S_arg, T) :: (s, T0) :: st) rp rest (or_intror eq_refl) Hrp)
       as (n2 & T2 & al & Hn2 & Hr2 & He2 & Hm2).
     exists (n + 1 + n2 + 1)%nat, (Br F_p_argument_list [T; Leaf c; T2]), (a :: al). split; [|split; [|split]].
     + rewrite app_length. cbn [length]. lia.
@@ -288,9 +309,9 @@ Definition cmd_matches (c : scmd) (x : pcmd) : Prop :=
   pc_result x = Some (sc_result c) /\ pc_cmd x = sc_name c /\ Forall2 arg_matches (sc_args c) (pc_args x).
 (* what follows a command: the next command (an identifier) or the end of the input *)
 Definition cfollow (rest : list token) : Prop := rest = [] \/ exists la r, rest = la :: r /\ t_kind la = KID.
-Lemma command_ok c : forall s i T0 st rest, s = 0%nat \/ s = 3%nat -> cfollow rest ->
+Lemma command_ok c : forall s i T0 st rest, s = 0%nat \/ s = S_cmd -> cfollow rest ->
   exists n T x, (n + 4 <= 10 * length (tk_cmd c))%nat /\
-    reaches ((s, T0) :: st) (deco i (tk_cmd c) ++ rest) ((3%nat, T) :: (s, T0) :: st) rest n /\
+    reaches ((s, T0) :: st) (deco i (tk_cmd c) ++ rest) ((S_cmd, T) :: (s, T0) :: st) rest n /\
     eval fs T = SOk (SCmd x false) /\ cmd_matches c x.
 Proof. intros s i T0 st rest Hs Hf. unfold tk_cmd. cbn [LrComplete.deco app].
   set (r := mk i (KID, sc_result c)). set (e := mk (S i) (KEQUAL, [61%N])). set (nm := mk (S (S i)) (KID, sc_name c)).
@@ -307,7 +328,7 @@ Proof. intros s i T0 st rest Hs Hf. unfold tk_cmd. cbn [LrComplete.deco app].
   - set (l := x :: l') in *. set (tj := tk_join (map tk_arg l)).
     rewrite deco_app. cbn [LrComplete.deco]. rewrite <- app_assoc. cbn [app].
     set (rp := mk (length tj + S (S (S (S i)))) (KRPAREN, [41%N])).
-    destruct (args_ok l ltac:(discriminate) 8%nat (S (S (S (S i)))) (Leaf lp) ((9%nat, Leaf nm) :: (6%nat, Leaf e) :: (4%nat, Leaf r) :: (s, T0) :: st)
+    destruct (args_ok l ltac:(discriminate) S_lp (S (S (S (S i)))) (Leaf lp) ((S_name, Leaf nm) :: (S_eq, Leaf e) :: (S_res, Leaf r) :: (s, T0) :: st)
                 rp rest (or_introl eq_refl) eq_refl) as (n & T & al & Hn & Hr & He & Hm).
     exists (4 + n + 3)%nat, (Br F_p_command [Leaf r; Leaf e; Leaf nm; Br F_p_arguments [Leaf lp; T; Leaf rp]]),
       {| pc_result := Some (sc_result c); pc_cmd := sc_name c; pc_args := al; pc_line := L i |}.
@@ -321,8 +342,7 @@ Proof. intros s i T0 st rest Hs Hf. unfold tk_cmd. cbn [LrComplete.deco app].
     + unfold cmd_matches. cbn [pc_result pc_cmd pc_args]. rewrite EA. repeat split. exact Hm.
 Qed.
 
-Definition gc (s : nat) : nat := if Nat.eqb s 0 then 2%nat else 5%nat.
-Lemma commands_ok : forall p, p <> [] -> forall s i T0 st, s = 0%nat \/ s = 3%nat ->
+Lemma commands_ok : forall p, p <> [] -> forall s i T0 st, s = 0%nat \/ s = S_cmd ->
   exists n T cs, (n <= 10 * length (tk_program p))%nat /\
     reaches ((s, T0) :: st) (deco i (tk_program p)) ((gc s, T) :: (s, T0) :: st) [] n /\
     eval fs T = SOk (SCmds cs false) /\ Forall2 cmd_matches p cs.
@@ -336,7 +356,7 @@ Proof. induction p as [|c p IH]; [congruence|]. intros _ s i T0 st Hs. destruct 
   - change (tk_program (c :: c2 :: p')) with (tk_cmd c ++ tk_program (c2 :: p')). rewrite deco_app.
     destruct (command_ok c s i T0 st (deco (length (tk_cmd c) + i) (tk_program (c2 :: p'))) Hs) as (n & T & x & Hn & Hr & He & Hm).
     { right. cbn [tk_program flat_map tk_cmd app LrComplete.deco]. eexists. eexists. split; reflexivity. }
-    destruct (IH ltac:(discriminate) 3%nat (length (tk_cmd c) + i)%nat T ((s, T0) :: st) (or_intror eq_refl)) as (n2 & T2 & cs & Hn2 & Hr2 & He2 & Hm2).
+    destruct (IH ltac:(discriminate) S_cmd (length (tk_cmd c) + i)%nat T ((s, T0) :: st) (or_intror eq_refl)) as (n2 & T2 & cs & Hn2 & Hr2 & He2 & Hm2).
     exists (n + n2 + 1)%nat, (Br F_p_commands [T; T2]), (x :: cs). split; [|split; [|split]].
     + rewrite app_length. lia.
     + eapply reaches_trans; [eapply reaches_trans; [exact Hr | exact Hr2]|].
